@@ -33,7 +33,7 @@ vars == <<tid, l, st, mem, viol>>
 
 Tr      == AllTraces[tid].events
 Ev      == Tr[l]
-HasSnap(e) == e.e \in {"start", "gsc", "lsc", "sprout", "end", "abort", "report", "dump"}
+HasSnap(e) == e.e \in {"start", "gsc", "lsc", "sprout", "end", "abort", "report", "dump", "retarget"}
 
 -----------------------------------------------------------------------------
 (* Reading events                                                          *)
@@ -485,6 +485,10 @@ Step ==
        IF ~HasSnap(e)
        THEN /\ viol' = viol \cup {<<"RunCrashed", l>>}
             /\ UNCHANGED <<st, mem>>
+       ELSE IF e.e = "retarget"   \* the caller changed the limit of the global condition after run() returned
+       THEN /\ st' = [st EXCEPT !.cfg.gscn = e.n, !.gscSeen = FALSE, !.pc = "loop",
+                                 !.wind = [d \in DOMAIN st.wind |-> 0]]
+            /\ UNCHANGED <<mem, viol>>
        ELSE IF e.e = "abort"      \* the harness cut a run that did not end: nothing is compared mid-step
        THEN /\ viol' = viol \cup {<<"RunStalled", l>>}
             /\ UNCHANGED <<st, mem>>
